@@ -51,6 +51,7 @@ class Path:
         q.events = list(self.events)
         q.loops = self.loops
         q.asserted = getattr(self, 'asserted', ())
+        q._raised = getattr(self, '_raised', False)
         return q
 
 
@@ -97,6 +98,8 @@ class SymExec:
                                                    and isinstance(n.ctx, (ast.Store, ast.Del))}
 
     # ------------------------------------------------------------------ substitution
+    raises = False      # True: a helper path that raises ends the caller's path as a raise too
+
     def subst(self, e, env):
         def fn(n):
             if isinstance(n, ast.Name) and isinstance(n.ctx, ast.Load) and n.id in env:
@@ -244,6 +247,7 @@ class SymExec:
         sub = SymExec(self.ctx, self.func, self.depth - 1, self.expand, self.bind_loops, self.no_expand,
                       self.max_paths, self.objects, self.effects, self.volatile, self.props, self.private_only)
         sub._ntok = self._ntok
+        sub.raises = self.raises
         sub.local_defs = dict(self.local_defs)
         res = []
         for p in sub.run(stmts=body, env=bind):
@@ -288,6 +292,7 @@ class SymExec:
         sub = SymExec(self.ctx, g, self.depth - 1, self.expand, self.bind_loops, self.no_expand,
                       self.max_paths, self.objects, self.effects, self.volatile, self.props, self.private_only)
         sub._ntok = self._ntok
+        sub.raises = self.raises
         paths = sub.run(env=dict(bind))
         is_gen = any(isinstance(n, (ast.Yield, ast.YieldFrom)) for n in walk_no_nested(g.node))
         if is_gen:
@@ -300,10 +305,12 @@ class SymExec:
                         return None
                     p.end = 'return'
         if with_effects:
-            return [p for p in paths if p.end != 'raise'] or None
+            return [p for p in paths if p.end != 'raise' or self.raises] or None
         res = []
         for p in paths:
             if p.end == 'raise':
+                if self.raises:
+                    res.append((ast.Name(id='_raise', ctx=ast.Load()), p.conds))
                 continue
             if p.end != 'return' or p.ret is None:
                 return None
@@ -330,6 +337,7 @@ class SymExec:
         sub = SymExec(self.ctx, g, self.depth - 1, self.expand, self.bind_loops, self.no_expand,
                       self.max_paths, self.objects, self.effects, self.volatile, self.props, self.private_only)
         sub._ntok = self._ntok
+        sub.raises = self.raises
         res = []
         for p in sub.run():
             if p.end == 'raise':
@@ -386,6 +394,8 @@ class SymExec:
                     feasible = False        # the helper path contradicts a test the caller already passed
                     break
                 p2.conds = p2.conds + tuple(c for c in hc if c not in p2.conds)
+                if isinstance(val, ast.Name) and val.id == '_raise':
+                    p2._raised = True
             if not feasible:
                 continue
             v2 = copy_replace(v, lambda x: repl.get(id(x)))
@@ -406,7 +416,10 @@ class SymExec:
                 if p.end is not None:
                     nxt.append(p)
                     continue
-                nxt += self._stmt(st, p)
+                for q in self._stmt(st, p):
+                    if getattr(q, '_raised', False):
+                        q.end = 'raise'     # a helper raised while this statement was evaluated
+                    nxt.append(q)
             paths = nxt
             if len(paths) > self.max_paths:
                 raise AnalysisError('%s: more than %d symbolic paths' % (self.func.qual, self.max_paths))
@@ -519,6 +532,12 @@ class SymExec:
                 return ast.Tuple(elts=[k, elem(x.args[0])], ctx=ast.Load())
             if isinstance(x, ast.Attribute) and x.attr == 'flat':
                 return ast.Subscript(value=x.value, slice=k, ctx=ast.Load())
+            if isinstance(x, ast.Call) and (dotted(x.func) or '') in ('pairwise', 'itertools.pairwise') and \
+               len(x.args) == 1 and not x.keywords:
+                # neighbours: (X[k], X[k + 1])
+                return ast.Tuple(elts=[elem(x.args[0]), ast.Subscript(
+                    value=x.args[0], slice=ast.BinOp(left=k, op=ast.Add(), right=ast.Constant(value=1)), ctx=ast.Load())],
+                    ctx=ast.Load())
             ea = _each_of(x)
             if ea is not None:
                 # iterating "each E(IT[j])": the element is E itself (its own index names stand for
@@ -640,12 +659,105 @@ class SymExec:
             p2.asserted = getattr(p2, 'asserted', ()) + getattr(q, 'asserted', ())
             p2.calls += q.calls
             p2.events += [ev[:-1] + (p.loops + ev[-1],) for ev in q.events]
+            if q.end == 'raise':
+                p2._raised = True
+                out.append(p2)
+                continue
             if isinstance(st, ast.Assign):
                 val = q.ret if q.ret is not None else ast.Constant(value=None)
                 for t in st.targets:
                     self._assign(t, val, p2, st)
             out.append(p2)
         return out
+
+    def _generator_loop(self, st, p):
+        """`for x in self._gen(...)` / `for i, x in enumerate(self._gen(...))` where the generator helper
+        creates objects / stores / calls: generator and loop body run interleaved - what the generator
+        does up to a yield, then the body with the yielded value (and its position), and so on.  A yield
+        inside a loop of the generator stands for every element of that loop (the body's events
+        carry the loop, like the creation itself).  None when the statement is not of this kind."""
+        it = self.subst(st.iter, p.env)
+        enum = False
+        call = it
+        if isinstance(it, ast.Call) and isinstance(it.func, ast.Name) and it.func.id == 'enumerate' and \
+           len(it.args) == 1 and not it.keywords:
+            enum, call = True, it.args[0]
+        if not isinstance(call, ast.Call):
+            return None
+        g = self._callee(call)
+        if g is None or not any(isinstance(n, (ast.Yield, ast.YieldFrom)) for n in walk_no_nested(g.node)):
+            return None
+        if any(isinstance(n, (ast.Break, ast.Return)) for b_ in st.body for n in ast.walk(b_)):
+            return None
+        # what the generator does depends on its arguments only; the same call from several caller
+        # paths (alternatives, never combined) is walked once
+        gcache = self.__dict__.setdefault('_gen_cache', {})
+        gkey = (g.qual, norm(call), sum(1 for ev in p.events if ev[0] == 'create'))
+        if gkey not in gcache:
+            gcache[gkey] = self.helper_paths(call, p.env, with_effects=True)
+        hp = gcache[gkey]
+        if hp is None or not any(ev[0] not in ('yield', 'assert') for q in hp for ev in q.events):
+            return None
+        if any(ev[0] == 'yield-from' or len(ev[-1]) > 1 for q in hp for ev in q.events):
+            return None
+        one = ast.Constant(value=1)
+        out = []
+        for q in hp:
+            p2 = p.fork()
+            if any(isinstance(b, bool) and (t, not b) in p2.conds for t, b in q.conds):
+                continue
+            p2.conds = p2.conds + tuple(c for c in q.conds if c not in p2.conds)
+            p2.stores += q.stores
+            p2.asserted = getattr(p2, 'asserted', ()) + getattr(q, 'asserted', ())
+            p2.calls += q.calls
+            cur = [p2]
+            count = ast.Constant(value=0)       # number of values yielded so far
+            for ev in q.events:
+                if ev[0] != 'yield':
+                    for c_ in cur:
+                        c_.events.append(ev[:-1] + (p.loops + ev[-1],))
+                    continue
+                v = ev[1]
+                pos = count
+                if ev[-1]:
+                    k = ast.Name(id='_k%d' % self._nloops, ctx=ast.Load())
+                    self._nloops += 1
+                    pos = ast.BinOp(left=count, op=ast.Add(), right=k)
+                    try:
+                        lit = ast.parse(ev[-1][0], mode='eval').body
+                    except SyntaxError:
+                        return None
+                    count = ast.BinOp(left=count, op=ast.Add(), right=ast.Call(
+                        func=ast.Name(id='sum', ctx=ast.Load()),
+                        args=[ast.Call(func=ast.Name(id='_each', ctx=ast.Load()), args=[one, lit], keywords=[])], keywords=[]))
+                else:
+                    count = ast.BinOp(left=count, op=ast.Add(), right=one)
+                pos = simplify(pos)
+                count = simplify(count)
+                item = ast.Tuple(elts=[pos, v], ctx=ast.Load()) if enum else v
+                nxt = []
+                for c_ in cur:
+                    c_ = c_.fork()
+                    for n in ast.walk(st.target):
+                        if isinstance(n, ast.Name):
+                            c_.env.pop(n.id, None)
+                            for k_ in [k_ for k_ in c_.env if k_.startswith(n.id + '.')]:
+                                del c_.env[k_]
+                    self._assign(st.target, item, c_, None)
+                    c_.stores = [s_ for s_ in c_.stores if s_[2] is not None]
+                    c_.events = [e_ for e_ in c_.events if not (e_[0] == 'store' and e_[3] is None)]
+                    saved = c_.loops
+                    c_.loops = p.loops + ev[-1]
+                    for b in self._block(st.body, [c_]):
+                        if b.end == 'continue':
+                            b.end = None
+                        b.loops = saved
+                        nxt.append(b)
+                cur = nxt
+                if len(cur) > self.max_paths:
+                    raise AnalysisError('%s: more than %d symbolic paths' % (self.func.qual, self.max_paths))
+            out += cur
+        return out or None
 
     def _stmt(self, st, p):
         if isinstance(st, ast.FunctionDef):
@@ -709,6 +821,11 @@ class SymExec:
                 p2.conds = p2.conds + tuple(a for a in ats if a not in p2.conds)
                 out += self._block(blk, [p2])
             return out
+        if isinstance(st, ast.For) and self.bind_loops and self.effects and not st.orelse and \
+           not getattr(st, '_iter_done', False):
+            r = self._generator_loop(st, p)
+            if r is not None:
+                return r
         if isinstance(st, ast.For) and self.bind_loops and not st.orelse and not getattr(st, '_iter_done', False):
             # the iterable with helper calls looked through; a helper with several paths forks the walk
             its = self.eval_expr(st.iter, p)
@@ -723,6 +840,7 @@ class SymExec:
                 return outs
         if isinstance(st, ast.For) and self.bind_loops and not st.orelse:
             it0 = st.iter if getattr(st, '_iter_done', False) else self.subst(st.iter, p.env)
+            it0 = _literal_items(it0)
             if isinstance(it0, (ast.Tuple, ast.List)) and len(it0.elts) <= 12 and \
                not any(isinstance(x, ast.Starred) for x in it0.elts):
                 # a loop over a literal: executed element by element
@@ -878,6 +996,8 @@ class SymExec:
             out = []
             val = st.value.value if st.value.value is not None else ast.Constant(value=None)
             for v, p2 in self.eval_expr(val, p):
+                if self.objects:
+                    v = self._tokenize(v, p2, st)
                 p2.events.append(('yield', v, st, p2.loops))
                 out.append(p2)
             return out
@@ -955,6 +1075,23 @@ def _subst_inner(sx, n, env2):
     return new
 
 
+def _literal_items(it):
+    """enumerate / zip / reversed of literal sequences, as the literal sequence of their items"""
+    def lit(x):
+        return isinstance(x, (ast.Tuple, ast.List)) and not any(isinstance(e_, ast.Starred) for e_ in x.elts)
+    if isinstance(it, ast.Call) and isinstance(it.func, ast.Name) and not it.keywords:
+        args = [_literal_items(a) for a in it.args]
+        if it.func.id == 'enumerate' and len(args) == 1 and lit(args[0]):
+            return ast.Tuple(elts=[ast.Tuple(elts=[ast.Constant(value=i), e_], ctx=ast.Load())
+                                   for i, e_ in enumerate(args[0].elts)], ctx=ast.Load())
+        if it.func.id == 'zip' and args and all(lit(a) for a in args):
+            return ast.Tuple(elts=[ast.Tuple(elts=list(es), ctx=ast.Load())
+                                   for es in zip(*[a.elts for a in args])], ctx=ast.Load())
+        if it.func.id == 'reversed' and len(args) == 1 and lit(args[0]):
+            return ast.Tuple(elts=list(reversed(args[0].elts)), ctx=ast.Load())
+    return it
+
+
 def _yielded(p):
     """what a generator yields on path p, as a sequence: [a, b, *_each(c, IT)] - a yield inside a loop
     stands for one element per element of the loop's iterable; None when that cannot be written down"""
@@ -974,7 +1111,25 @@ def _yielded(p):
         elts.append(v)
     if len(elts) == 1 and isinstance(elts[0], ast.Starred) and _is_each(elts[0].value):
         return elts[0].value
+    if len(elts) == 1 and isinstance(elts[0], ast.Starred) and not any(ev[-1] for ev in p.events if ev[0] == 'yield-from'):
+        return elts[0].value        # `yield from X` alone: the elements of X
     return ast.List(elts=elts, ctx=ast.Load())
+
+
+def generator_sequences(ctx, func, **kw):
+    """[(conds, sequence AST)] - what the generator function hands out on each of its paths, as a closed
+    sequence expression ([a, b, *_each(E, IT)] / _each(E, IT) / X for `yield from X`)"""
+    opts = dict(bind_loops=True, depth=3, max_paths=2000)
+    opts.update(kw)
+    out = []
+    for p in SymExec(ctx, func, **opts).run():
+        if p.end == 'raise':
+            continue
+        seq = _yielded(p)
+        if seq is None:
+            raise AnalysisError('%s: yielded sequence cannot be written down' % func.qual)
+        out.append((p.conds, seq))
+    return out
 
 
 def _each_of(v):
@@ -1344,6 +1499,8 @@ def module_constants(module):
             if any(a is None for a in args):
                 return None
             if isinstance(v.func, ast.Name) and v.func.id in funcs:
+                return ast.Call(func=v.func, args=args, keywords=[])
+            if (dotted(v.func) or '') in ('np.array', 'numpy.array'):
                 return ast.Call(func=v.func, args=args, keywords=[])
             if isinstance(v.func, ast.Attribute) and v.func.attr in ('join', 'rstrip', 'ljust', 'rjust'):
                 base = resolve(v.func.value, busy)
